@@ -407,7 +407,7 @@ func keysB(m map[string]bool) []string {
 }
 
 func runC19(c *Check) {
-	c.Rule = "7 build families (JS graph with externals/JSON/CJS/dynamic import/tree-shaken module, CSS graph with @import/url()/data URLs/externals, JS importing CSS, splitting, legal comments, glob imports + inject, copy/file loader entries) x 11 option variants (minify, source maps, hashed and long name templates, public path, legal comments external, cjs, iife, outbase) x marker strings in every top-level statement; the metafile is checked against the emitted bytes: keys == emitted paths, byte sizes, entry points, imports of every output == import statements/@import/url() scanned from that file, export names, inputs == files read with sizes and resolved imports, sum(bytesInOutput) <= size, contribution > 0 <=> a marker of that input occurs in the output; distinct = distinct metafiles"
+	c.Rule = "7 build families (JS graph with externals/JSON/CJS/dynamic import/tree-shaken module, CSS graph with @import/url()/data URLs/externals, JS importing CSS, splitting, legal comments, glob imports + inject, copy/file loader entries) x 11 option variants (minify, source maps, hashed and long name templates, public path, legal comments external, cjs, iife, outbase) x marker strings in every top-level statement; the metafile is checked against the emitted bytes: keys == emitted paths, byte sizes, entry points, imports of every output == import statements/@import/url() scanned from that file, export names, inputs == files read with sizes and resolved imports, sum(bytesInOutput) <= size, contribution > 0 <=> a marker of that input occurs in the output; distinct = distinct metafiles; abs-paths variants (metafile/code/both) with a strict path-style check over every path in the metafile"
 	c.Assump = []string{"outputs are scanned with regular expressions that are exact for esbuild's own regular output format of the generated programs (no import-like text inside strings)"}
 	root := scratchRoot("c19")
 	defer os.RemoveAll(root)
